@@ -71,7 +71,7 @@ class Run:
         name = name or cfg.replace('.cfg', '')
         meta = os.path.join(self.work, 'meta-' + name)
         res = TlcResult()
-        cmd = ['timeout', str(timeout), 'java', '-XX:+UseParallelGC', '-Xmx' + os.environ.get('VERIF_TLC_HEAP', '6g'), '-cp', TLC_CP,
+        cmd = ['timeout', str(timeout), 'java', '-XX:+UseParallelGC', '-Xmx' + os.environ.get('VERIF_TLC_HEAP', '6g'), '-Xss32m', '-Dfile.encoding=UTF-8', '-cp', TLC_CP,
                'tlc2.TLC', '-workers', str(workers), '-metadir', meta, '-noGenerateSpecTE',
                '-config', os.path.join('cfg', cfg)]
         if coverage:
